@@ -9,6 +9,7 @@ for d in $ROOT/seeded/$glob/; do
   [ -f $d/meta.json ] || continue
   id=$(basename $d)
   read check tier key < <(python3 -c "import json;m=json.load(open('$d/meta.json'));x=m['detected_by'];print(x['check'],x['tier'],x['finding_key'])")
+  if [ "$check" = "none" ]; then echo "$id not-detected-yet (recorded as a limit)"; continue; fi
   s=$(date +%s)
   # first attempt with a short budget (REGRESS_BUDGET, default: the tier's own), a second one with the full budget if that misses
   r=$(MUT_WORKTREE=1 VERIF_BUDGET=${REGRESS_BUDGET:-} $ROOT/tools/runmutant.sh $d/patch.diff $tier $check 2>&1 | tail -1)
